@@ -534,18 +534,118 @@ def _upper(e, st):
     return float("inf")
 
 
+INF = float("inf")
+
+
+def _find_member(st, name):
+    for f in st.fields:
+        for g in [f] + (f.anon or []):
+            if g.name == name:
+                return g
+    return None
+
+
+def _type_range(t):
+    if t is None or t.dims:
+        return (-INF, INF)
+    if t.kind == "UInt":
+        return (0, 2**t.bits - 1)
+    if t.kind == "Int":
+        return (-(2 ** (t.bits - 1)), 2 ** (t.bits - 1) - 1)
+    if t.kind == "Bcd":
+        full, part = divmod(t.bits, 4)
+        return (0, (2**part) * 10**full - 1)
+    return (-INF, INF)
+
+
+def bounds(e, st, depth=0):
+    """(lo, hi) of an integer expression over structure st from the ranges of the types it mentions -
+    the same interval reasoning the documentation attributes to the bounds checker ($upper_bound)."""
+    if e is None or depth > 12:
+        return (-INF, INF)
+    k = e[0]
+    if k == "n":
+        return (e[1], e[1])
+    if k == "r":
+        cur = st
+        g = None
+        for i, name in enumerate(e[1]):
+            if cur is None:
+                return (-INF, INF)
+            g = _find_member(cur, name)
+            if g is None:
+                for pn, pt in getattr(cur, "params", []):
+                    if pn == name and i == len(e[1]) - 1:
+                        return _type_range(pt)
+                return (-INF, INF)
+            if i < len(e[1]) - 1:
+                t = g.typ
+                cur = (g.inline if (g.inline is not None and hasattr(g.inline, "fields")) else (t.target if t is not None else None)) if not g.is_virtual else None
+        if g is None:
+            return (-INF, INF)
+        if g.is_virtual:
+            return bounds(g.value, cur if len(e[1]) > 1 else st, depth + 1)
+        return _type_range(g.typ)
+    if k == "op" and e[1] in ("+", "-", "*"):
+        (a, b), (c, d) = bounds(e[2], st, depth + 1), bounds(e[3], st, depth + 1)
+        if INF in (abs(a), abs(b), abs(c), abs(d)):
+            if e[1] == "+" and a > -INF and c > -INF:
+                return (a + c, INF)
+            return (-INF, INF)
+        if e[1] == "+":
+            return (a + c, b + d)
+        if e[1] == "-":
+            return (a - d, b - c)
+        ps = [a * c, a * d, b * c, b * d]
+        return (min(ps), max(ps))
+    if k == "max":
+        bs = [bounds(a, st, depth + 1) for a in e[1]]
+        return (max(b[0] for b in bs), max(b[1] for b in bs)) if bs else (-INF, INF)
+    if k == "?:":
+        (a, b), (c, d) = bounds(e[2], st, depth + 1), bounds(e[3], st, depth + 1)
+        return (min(a, c), max(b, d))
+    return (-INF, INF)
+
+
+def certainly_true(c, st, depth=0):
+    """A condition that holds for every content (constant folding with Kleene ||/&&;
+    $present of a field that is itself certainly present)."""
+    if c is None:
+        return True
+    if depth > 8:
+        return False
+    k = c[0]
+    if k == "b":
+        return bool(c[1])
+    if k == "present" and len(c[1]) == 1:
+        g = _find_member(st, c[1][0])
+        if g is None:
+            return False
+        if not certainly_true(g.cond, st, depth + 1):
+            return False
+        # a member of an anonymous bits exists iff the container and the member do
+        for f in st.fields:
+            if f.anon and g in f.anon:
+                return certainly_true(f.cond, st, depth + 1)
+        return True
+    if k == "op" and c[1] == "||":
+        return certainly_true(c[2], st, depth + 1) or certainly_true(c[3], st, depth + 1)
+    if k == "op" and c[1] == "&&":
+        return certainly_true(c[2], st, depth + 1) and certainly_true(c[3], st, depth + 1)
+    return False
+
+
 def constant_size(st):
+    """The size when it is the same for every content: the largest end that is certainly there
+    is at least as large as every end that can be there."""
     lo = hi = 0
     for f in st.fields:
         if f.is_virtual:
             continue
-        if f.start[0] == "n" and f.size[0] == "n":
-            end = f.start[1] + f.size[1]
-            hi = max(hi, end)
-            if f.cond is None:
-                lo = max(lo, end)
-        else:
-            hi = max(hi, getattr(f, "end_max", float("inf")))
+        (slo, shi), (zlo, zhi) = bounds(f.start, st), bounds(f.size, st)
+        hi = max(hi, shi + zhi)
+        if certainly_true(f.cond, st) and slo > -INF and zlo > -INF:
+            lo = max(lo, slo + zlo)
     return lo if lo == hi else None
 
 
